@@ -112,7 +112,34 @@ func checkC15(x []byte, sc *c15scratch, c vk.Recorder, key string, runVM bool) {
 		}
 	}
 	if runVM {
-		pv, stack := runVMOn(exact)
+		var runErr error
+		// the client input equals the selector of the first INCMP (if any), so that the run goes on in the "already matched" state
+		runInput := "1"
+		if pfx, _, _ := codec.Decode(x); len(pfx) > 0 {
+			for _, ins := range pfx {
+				if ins.Op == codec.INCMP && len(ins.S2) > 0 && len(ins.S2) < 200 {
+					runInput = ins.S2
+					break
+				}
+			}
+		}
+		pv, stack := runVMOnInput(exact, runInput, &runErr)
+		if pv == nil && malformed(class) && runErr == nil {
+			// the instructions in front of the malformed one neither stop the run nor discard the buffer nor can fail
+			// for lack of a loaded symbol: the run has to decode the malformed instruction and must report it
+			prefix, _, _ := codec.Decode(x)
+			mustReach := true
+			for _, ins := range prefix {
+				switch ins.Op {
+				case codec.INCMP, codec.MOUT, codec.MNEXT, codec.MPREV, codec.MSINK:
+				default:
+					mustReach = false
+				}
+			}
+			if mustReach {
+				report("Vm.Run:silent-accept:"+class+":"+opAt, fmt.Sprintf("Vm.Run reports success although it had to decode a %s instruction (input set to \"1\")", class))
+			}
+		}
 		if pv != nil {
 			sig := vk.PanicSig(pv, stack)
 			if strings.Contains(sig, "bit_index") || strings.Contains(sig, "down_into_same_node") || strings.Contains(sig, "maxlevel") {
@@ -152,13 +179,22 @@ func (c15Resource) FuncFor(ctx context.Context, s string) (resource.EntryFunc, e
 func (c15Resource) Close(ctx context.Context) error { return nil }
 
 func runVMOn(b []byte) (interface{}, string) {
+	var e error
+	return runVMOnErr(b, &e)
+}
+
+func runVMOnErr(b []byte, rerr *error) (interface{}, string) {
+	return runVMOnInput(b, "1", rerr)
+}
+
+func runVMOnInput(b []byte, input string, rerr *error) (interface{}, string) {
 	return vk.Guard(func() {
 		st := state.NewState(2032)
 		st.Down("root")
-		st.SetInput([]byte("1"))
+		st.SetInput([]byte(input))
 		ca := cache.NewCache()
 		v := vm.NewVm(st, c15Resource{}, ca, render.NewSizer(160))
-		v.Run(context.Background(), b)
+		_, *rerr = v.Run(context.Background(), b)
 	})
 }
 
@@ -167,6 +203,11 @@ var c15Alpha = []byte{0, 1, 2, 3, 4, 5, 6, 7, 8, 9, 10, 11, 12, 13, 0x20, 'a', 0
 func genSmallProgram(r *vk.RNG) []codec.Ins {
 	n := r.Range(1, 12)
 	prog := make([]codec.Ins, 0, n)
+	if r.Chance(1, 3) {
+		// input-handling blocks: several INCMP lines with valid targets, so that runs reach the states after a match
+		prog = append(prog, codec.Ins{Op: codec.INCMP, S1: vk.Pick(r, []string{"foo", "bar", "_", "."}), S2: vk.Pick(r, []string{"1", "a", "*"})})
+		prog = append(prog, codec.Ins{Op: codec.INCMP, S1: "baz", S2: vk.Pick(r, []string{"1", "2", "*"})})
+	}
 	for i := 0; i < n; i++ {
 		op := uint16(r.Range(1, 12))
 		ins := codec.Ins{Op: op}
@@ -200,7 +241,7 @@ func C15() *vk.Check {
 	return &vk.Check{
 		ID:    "C15",
 		Level: "exploration",
-		Rule: "every input is classified by an independent strict validator (complete-valid / truncated / bad-opcode / overlong-int / zero-length-symbol) and presented three ways (cap==len; prefix of a larger buffer with fill 0xC3; same with fill 0x01) to ParseHandler.ToString/ParseAll and to the VM's Parse* chain; Vm.Run on a subset. Oracle: no panic; malformed => error; the three presentations agree (else the result depends on bytes past the end = over-read). " +
+		Rule: "every input is classified by an independent strict validator (complete-valid / truncated / bad-opcode / overlong-int / zero-length-symbol) and presented three ways (cap==len; prefix of a larger buffer with fill 0xC3; same with fill 0x01) to ParseHandler.ToString/ParseAll and to the VM's Parse* chain; Vm.Run on a subset (input 1; a run whose leading instructions are all INCMP/MOUT/MNEXT/MPREV/MSINK must report the malformed instruction behind them). Oracle: no panic; malformed => error; the three presentations agree (else the result depends on bytes past the end = over-read). " +
 			"Inputs: ALL byte strings of length<=3 (thorough: 16,843,009, exhaustive; quick: all of length<=2, all of length 3 starting with 0x00, and length 3 with second byte in {0..13,0xff} for the other first bytes, which are all out-of-range opcodes), all strings of length 4..5 (quick) / 4..6 (thorough) over an 18-byte alphabet {0..13,0x20,'a',0x7f,0xff}, and for PRNG programs (1..12 instructions) EVERY truncation and EVERY single-byte substitution (256 values at each position). thorough additionally runs Go's coverage-guided fuzzer (go test -fuzz, 3,000,000 executions, seeded with generated programs and their truncations) on the same oracle. distinct: enumerated inputs are distinct by construction (fuzz executions are counted as evaluations only); non-trivial = every input (each is decoded by both decoders).",
 		Assumptions:    []string{"the strict validator (codec.Decode) is the reference for what is malformed", "opcode 0 (NOOP) and errors on complete-valid input are not this property's concern (counted only)", "Vm.Run: only runtime-error panics count; explicit operand guards of package state are execution semantics"},
 		MinEvaluations: 100000,
